@@ -137,7 +137,14 @@ func (err *yamlParseError) Error() string {
 			}
 		}
 	}
-	linestr, line, column := getLineByOffset(err.contents, index+1)
+	offset := len(err.contents)
+	for i := range err.contents { // index counts characters, not bytes
+		if index--; index < 0 {
+			offset = i
+			break
+		}
+	}
+	linestr, line, column := getLineByOffset(err.contents, offset+1)
 	return fmt.Sprintf("invalid yaml: %s:%d\n%s  %s",
 		err.fname, line, formatLineInfo(linestr, line, column), message)
 }
